@@ -34,13 +34,17 @@ Section Step.
 
   Hypothesis io_disjoint1 : starts_with inp outp = false.
   Hypothesis io_disjoint2 : starts_with outp inp = false.
-  (** the transformation only depends on the source text and the files it registered *)
+  (** a successful transformation only depends on the source text and the files it registered *)
   Hypothesis xform_frame : forall c q t f f',
+      fst (xform c q t f) <> None ->
       (forall d, In d (snd (xform c q t f)) -> fs_get f' d = fs_get f d) ->
       xform c q t f' = xform c q t f.
-  (** registered dependencies are files that were read, outside the output folder *)
-  Hypothesis deps_exist : forall c q t f d, In d (snd (xform c q t f)) -> fs_get f d <> None.
-  Hypothesis deps_outside : forall c q t f d, In d (snd (xform c q t f)) -> starts_with outp d = false.
+  (** the dependencies registered by a successful transformation are files that were read,
+      outside the output folder *)
+  Hypothesis deps_exist : forall c q t f d,
+      fst (xform c q t f) <> None -> In d (snd (xform c q t f)) -> fs_get f d <> None.
+  Hypothesis deps_outside : forall c q t f d,
+      fst (xform c q t f) <> None -> In d (snd (xform c q t f)) -> starts_with outp d = false.
 
   Notation out_of := (out_of inp outp).
   Notation is_source := (is_source inp).
@@ -53,12 +57,10 @@ Section Step.
   Notation wf := (wf inp outp E).
 
   Definition good (c : cfg) (f : fs) (it : item) : Prop :=
-    exists txt, fs_get f (i_src it) = Some txt /\
+    exists txt o, fs_get f (i_src it) = Some txt /\
+      fst (xform c (i_src it) txt f) = Some o /\
       (forall x, In x (i_deps it) <-> In x (snd (xform c (i_src it) txt f))) /\
-      match fst (xform c (i_src it) txt f) with
-      | Some o => i_st it = DoneOk /\ fs_get f (i_out it) = Some o
-      | None => i_st it = DoneErr
-      end.
+      i_st it = DoneOk /\ fs_get f (i_out it) = Some o.
 
   Definition clean_item (d : dirty) (it : item) : Prop :=
     ~ In (i_src it) (dC d) /\ covered (dR d) (i_src it) = false /\
@@ -79,7 +81,8 @@ Section Step.
                         \/ In p (rmf (w_tree w)) \/ fs_get (w_fs w) p = fs_get f0 p;
     inv_user : forall p, starts_with outp p = false -> fs_get (w_fs w) p = fs_get u p;
     inv_ufs_E : forall p, fs_get u p <> None -> In p E;
-    inv_ufs_out : forall p, starts_with outp p = true -> fs_get u p = fs_get f0 p
+    inv_ufs_out : forall p, starts_with outp p = true -> fs_get u p = fs_get f0 p;
+    inv_noerr : forall i it, get_slot (slots (w_tree w)) i = Some it -> i_st it <> DoneErr
   }.
 
   Lemma good_frame c f f' it :
@@ -89,9 +92,9 @@ Section Step.
     fs_get f' (i_out it) = fs_get f (i_out it) ->
     good c f' it.
   Proof.
-    intros [txt [Hs [Hd Hr]]] Hsrc Hdeps Hout. exists txt.
+    intros [txt [o [Hs [Hok [Hd [Hst Ho]]]]]] Hsrc Hdeps Hout. exists txt, o.
     assert (Hx : xform c (i_src it) txt f' = xform c (i_src it) txt f).
-    { apply xform_frame. intros x Hx. apply Hdeps. apply Hd. exact Hx. }
+    { apply xform_frame; [congruence|]. intros x Hx. apply Hdeps. apply Hd. exact Hx. }
     rewrite Hx, Hsrc, Hout. auto.
   Qed.
 
@@ -150,6 +153,9 @@ Section Step.
     - apply (inv_user _ _ _ _ I).
     - apply (inv_ufs_E _ _ _ _ I).
     - apply (inv_ufs_out _ _ _ _ I).
+    - intros i it Hi. destruct (is_done (i_st it)) eqn:Ed.
+      + eapply (inv_noerr _ _ _ _ I). apply H1; eassumption.
+      + destruct (i_st it); [discriminate|discriminate|discriminate].
   Qed.
 
   (** * User events *)
@@ -184,7 +190,8 @@ Section Step.
           { rewrite Hfu. unfold fs_is_file in Ef. destruct (fs_get u p); [discriminate|reflexivity]. }
           destruct Hx as [->|Hx].
           + apply (inv_exists _ _ _ _ I _ _ Hi); [rewrite <- HdR; exact Hc2|exact Hnone].
-          + destruct G as [txt [_ [Hdeps _]]]. apply Hdeps in Hx. apply deps_exist in Hx. contradiction. }
+          + destruct G as [txt [o [_ [Hok [Hdeps _]]]]]. apply Hdeps in Hx.
+            apply deps_exist in Hx; [contradiction|congruence]. }
       apply (good_frame _ (w_fs w)); [exact G| | |].
       + rewrite fs_get_write. destruct (path_eqb p (i_src it)) eqn:Ep; [|reflexivity].
         apply path_eqb_eq in Ep. exfalso. eapply Hne; [left; reflexivity|auto].
@@ -211,6 +218,7 @@ Section Step.
     - intros q Hq. rewrite fs_get_write.
       destruct (path_eqb p q) eqn:Ep; [apply path_eqb_eq in Ep; congruence|].
       apply (inv_ufs_out _ _ _ _ I q Hq).
+    - apply (inv_noerr _ _ _ _ I).
   Qed.
 
   Lemma step_FsRemove c0 d u w p :
@@ -251,6 +259,7 @@ Section Step.
     - intros q Hq. rewrite fs_get_del.
       destruct (path_eqb p q) eqn:Ep; [apply path_eqb_eq in Ep; congruence|].
       apply (inv_ufs_out _ _ _ _ I q Hq).
+    - apply (inv_noerr _ _ _ _ I).
   Qed.
 
   Lemma step_FsRemoveDir c0 d u w dd :
@@ -289,6 +298,7 @@ Section Step.
     - intros q. rewrite fs_get_del_under. destruct (starts_with dd q); [congruence|]. apply (inv_ufs_E _ _ _ _ I).
     - intros q Hq. rewrite fs_get_del_under, (under_out_not_under _ _ Ht Hq).
       apply (inv_ufs_out _ _ _ _ I q Hq).
+    - apply (inv_noerr _ _ _ _ I).
   Qed.
 
   (** * Calls of the watcher *)
@@ -705,11 +715,11 @@ Section Step.
     intros I. unfold snapshot_output_structure.
     destruct (snap (w_tree w)); [destruct w; exact I|].
     destruct (fs_is_file (w_fs w) outp && fs_is_dir (w_fs w) outp); [|destruct w; exact I].
-    destruct I as [I1 I2 I3 I4 I5 I6 I7 I8 I9]. constructor; cbn [w_tree w_fs] in *; try assumption.
+    destruct I as [I1 I2 I3 I4 I5 I6 I7 I8 I9 I10]. constructor; cbn [w_tree w_fs] in *; try assumption.
     apply wf_set_snap. exact I1.
   Qed.
 
   Lemma step_SetCfg c0 d u w c :
     inv c0 d u w -> inv c0 d u (mkWorld (w_fs w) c (w_tree w)).
-  Proof. intros [I1 I2 I3 I4 I5 I6 I7 I8 I9]. constructor; assumption. Qed.
+  Proof. intros [I1 I2 I3 I4 I5 I6 I7 I8 I9 I10]. constructor; assumption. Qed.
 End Step.
